@@ -98,7 +98,7 @@ def parseTrace (s : String) : Tr :=
 def replay (n : Nat) (alg : Algo) (t : Tr) : String :=
   open Ymq.Gen.Primality in
   if n = 0 then "ok 0"
-  else if bits n > 510 then "failure"
+  else if bits n > 500 then "failure"
   else
     let (nred, fs) := trialDivideBy 1100 smallPrimes n []
     match factorImpl traceOracle 4000 nred alg { os := t, factors := fs, pm1done := false, giveups := [] } with
